@@ -3772,6 +3772,39 @@ func memoKeys(c *Ctx, g *ssa.Function, tb *TermBuilder, short1 string, requireLo
 		}
 		kl, _ := argLeaves(kt)
 		vl, vOpaque := argLeaves(vt)
+		// a list that enters the key only through len(list) contributes its length, not its content: the key
+		// does not tell two lists of the same length apart
+		{
+			var strip func(x *Term, d int) *Term
+			strip = func(x *Term, d int) *Term {
+				if x == nil || d > 40 {
+					return x
+				}
+				if x.Op == "call" && (x.Name == "builtin:len" || x.Name == "builtin:cap") {
+					return &Term{Op: "const", Name: "0"}
+				}
+				cp := &Term{Op: x.Op, Name: x.Name, V: x.V, Cyc: x.Cyc}
+				for _, a := range x.Args {
+					cp.Args = append(cp.Args, strip(a, d+1))
+				}
+				return cp
+			}
+			full, _ := argLeaves(strip(kt, 0))
+			inFull := map[string]bool{}
+			for _, l := range full {
+				inFull[l] = true
+			}
+			var kept []string
+			for _, l := range kl {
+				if inFull[l] {
+					kept = append(kept, l)
+				}
+			}
+			// a key made of lengths alone is left to the shapes below
+			if len(kept) > 0 {
+				kl = kept
+			}
+		}
 		// a container built in this function: it depends on everything stored into it
 		for _, extra := range containerContent(g, unwrapIface(v)) {
 			l, o := argLeaves(tb.T(extra))
@@ -3983,7 +4016,156 @@ func openWithoutTruncate(c *Ctx, g *ssa.Function, short1 string) {
 // memoAlias: on a hit the function hands its caller the very list (or map) it keeps in a package-level memo:
 // every caller that gets it shares it with all the others and with the memo, so one caller's edit (sorting the
 // variants, filtering them in place) changes what later calls return.
+// memoResultFate says what becomes of the container a memo function hands out. An exported function hands it to
+// the library's user ("user"). For an unexported one every call site in the module is read: "written" when a
+// caller edits the container it was given (stores an element, appends, deletes, sorts), "read" when every caller
+// only looks things up in it, ranges over it or asks for its length - then sharing one copy is invisible -, and
+// "onward" when a caller passes it on (returns it, stores it, hands it to another call) or the function is
+// used as a value, so that where it ends up is not read here.
+func memoResultFate(c *Ctx, g *ssa.Function) (string, token.Pos) {
+	exported := g.Object() != nil && g.Object().Exported()
+	if exported && g.Signature.Recv() != nil {
+		rt := g.Signature.Recv().Type()
+		if pt, isP := rt.(*types.Pointer); isP {
+			rt = pt.Elem()
+		}
+		if nt, isN := rt.(*types.Named); isN && !nt.Obj().Exported() {
+			exported = false
+		}
+	}
+	if exported || g.Parent() != nil {
+		return "user", token.NoPos
+	}
+	fate, at := "", token.NoPos
+	set := func(f string, p token.Pos) {
+		rank := map[string]int{"": 0, "read": 1, "onward": 2, "written": 3}
+		if rank[f] > rank[fate] {
+			fate, at = f, p
+		}
+	}
+	var follow func(v ssa.Value, d int)
+	seen := map[ssa.Value]bool{}
+	follow = func(v ssa.Value, d int) {
+		if seen[v] || v.Referrers() == nil {
+			return
+		}
+		seen[v] = true
+		if d > 8 {
+			set("onward", v.Pos())
+			return
+		}
+		for _, r := range *v.Referrers() {
+			switch z := r.(type) {
+			case *ssa.DebugRef:
+			case *ssa.Lookup:
+				if z.X == v {
+					set("read", z.Pos())
+				} else {
+					set("onward", z.Pos())
+				}
+			case *ssa.Range:
+				set("read", z.Pos())
+			case *ssa.Index:
+				set("read", z.Pos())
+			case *ssa.Extract, *ssa.Phi, *ssa.ChangeType:
+				follow(z.(ssa.Value), d+1)
+			case *ssa.MapUpdate:
+				if z.Map == v {
+					set("written", z.Pos())
+				} else {
+					set("onward", z.Pos())
+				}
+			case *ssa.IndexAddr:
+				if z.X != v || z.Referrers() == nil {
+					set("onward", z.Pos())
+					break
+				}
+				for _, rr := range *z.Referrers() {
+					switch y := rr.(type) {
+					case *ssa.UnOp, *ssa.DebugRef:
+						set("read", z.Pos())
+					case *ssa.Store:
+						if y.Addr == ssa.Value(z) {
+							set("written", y.Pos())
+						} else {
+							set("onward", y.Pos())
+						}
+					default:
+						set("onward", z.Pos())
+					}
+				}
+			case *ssa.Call:
+				if b, isB := z.Call.Value.(*ssa.Builtin); isB {
+					switch b.Name() {
+					case "len", "cap":
+						set("read", z.Pos())
+					case "delete", "clear":
+						set("written", z.Pos())
+					case "append", "copy":
+						if len(z.Call.Args) > 0 && z.Call.Args[0] == v {
+							set("written", z.Pos())
+						} else {
+							set("read", z.Pos())
+						}
+					default:
+						set("onward", z.Pos())
+					}
+					break
+				}
+				if n := calleeName(z); strings.HasPrefix(n, "sort.") || strings.HasPrefix(n, "slices.Sort") || n == "slices.Reverse" || n == "math/rand.Shuffle" {
+					set("written", z.Pos())
+					break
+				}
+				set("onward", z.Pos())
+			default:
+				set("onward", r.Pos())
+			}
+		}
+	}
+	calls := 0
+	for _, f := range c.W.moduleFuncs() {
+		eachInstr(f, func(i ssa.Instruction) {
+			if ci, isCall := i.(ssa.CallInstruction); isCall && ci.Common().StaticCallee() == g {
+				calls++
+				if v, isV := i.(ssa.Value); isV {
+					follow(v, 0)
+				} else {
+					set("onward", i.Pos()) // go / defer: nothing is received
+				}
+				return
+			}
+			for _, op := range i.Operands(nil) {
+				if op != nil && *op == ssa.Value(g) {
+					if ci, isCall := i.(ssa.CallInstruction); !isCall || ci.Common().Value != ssa.Value(g) {
+						set("onward", i.Pos())
+					}
+				}
+			}
+		})
+	}
+	if calls == 0 && fate == "" {
+		return "onward", g.Pos()
+	}
+	if fate == "" {
+		fate = "read"
+	}
+	return fate, at
+}
+
 func memoAlias(c *Ctx, g *ssa.Function, short1 string) {
+	report := func(construct string, pos token.Pos, why string) {
+		fate, at := memoResultFate(c, g)
+		switch fate {
+		case "user":
+			c.bad("STATE", construct, pos, why)
+		case "written":
+			c.bad("STATE", construct, pos, why+"; the caller at "+c.W.pos(at)+" edits what it was given")
+		case "read":
+			c.ok("STATE", construct, pos, short1+" hands out the container it remembers, it is not exported, and every call site in the module only looks things up in the result, ranges over it or takes its length: sharing one copy cannot be observed")
+		default:
+			c.undecided("STATE", construct, pos, short1+" hands out the container it remembers and is not exported; the caller at "+c.W.pos(at)+" passes the result on, so whether anyone edits it is not read here")
+		}
+	}
 	mutableContainer := func(t types.Type) bool {
 		switch t.Underlying().(type) {
 		case *types.Slice, *types.Map:
@@ -4058,7 +4240,7 @@ func memoAlias(c *Ctx, g *ssa.Function, short1 string) {
 			return nil
 		}
 		if ret := direct(found, 0); ret != nil {
-			c.bad("STATE", "memo-alias:"+short1+"->"+gl.Name(), ret.Pos(), fmt.Sprintf("%s returns the list it keeps in package-level %s as it is: every caller that asks for the same key gets the same backing array, so a caller that edits its result (sorts it, filters it in place) changes what later callers receive", short1, gl.Name()))
+			report("memo-alias:"+short1+"->"+gl.Name(), ret.Pos(), fmt.Sprintf("%s returns the list it keeps in package-level %s as it is: every caller that asks for the same key gets the same backing array, so a caller that edits its result (sorts it, filters it in place) changes what later callers receive", short1, gl.Name()))
 		}
 	})
 	// the other half: the very list that is put into the memo is also what this call hands back (later hits may
@@ -4114,7 +4296,7 @@ func memoAlias(c *Ctx, g *ssa.Function, short1 string) {
 			return
 		}
 		if at := handedBack(val); at != nil {
-			c.bad("STATE", "memo-alias:"+short1+"->"+gl.Name()+":stored", i.Pos(), fmt.Sprintf("%s puts a list into package-level %s and hands the very same list back to its caller: a caller that edits its result (sorts it, overwrites an element) changes what every later call with the same arguments is given", short1, gl.Name()))
+			report("memo-alias:"+short1+"->"+gl.Name()+":stored", i.Pos(), fmt.Sprintf("%s puts a list into package-level %s and hands the very same list back to its caller: a caller that edits its result (sorts it, overwrites an element) changes what every later call with the same arguments is given", short1, gl.Name()))
 		}
 	})
 }
